@@ -49,7 +49,7 @@ func buildDBFixture() (*dbFixture, error) {
 	if err != nil {
 		return nil, err
 	}
-	// One flush first: the WAL that will hold the four batches then has an even number (000006.log
+	// One flush first: the WAL that will hold the four batches then has an even number (000004.log
 	// in this tree), so that xor 01 on the low byte of a log-number field yields number+1.
 	if err := db.Set([]byte("a"), []byte("flushed"), pebble.Sync); err != nil {
 		return nil, err
@@ -91,10 +91,7 @@ func buildDBFixture() (*dbFixture, error) {
 		}
 		fx.files[n] = b
 		if strings.HasSuffix(n, ".log") && len(b) > 0 {
-			if fx.walName != "" {
-				return nil, fmt.Errorf("more than one non-empty WAL: %s, %s", fx.walName, n)
-			}
-			fx.walName = n
+			fx.walName = n // names are sorted: the highest-numbered WAL wins (older ones are obsolete after the flush)
 		}
 	}
 	if fx.walName == "" {
